@@ -106,6 +106,12 @@ pub fn gen(rng: &mut Rng, _index: u64) -> String {
             return if rng.chance(2, 3) { format!("{} {} {}", op, proto::geom(&lsg), proto::geom(&lg)) }
                    else { format!("{} {} {}", op, proto::geom(&lg), proto::geom(&lsg)) };
         }
+        if rng.chance(1, 25) {
+            let (pa, pb) = tongue_pair(rng);
+            let op = if rng.chance(1, 2) { "C02.pred" } else { "C02.cpred" };
+            return if rng.chance(1, 2) { format!("{} {} {}", op, proto::geom(&pa), proto::geom(&pb)) }
+                   else { format!("{} {} {}", op, proto::geom(&pb), proto::geom(&pa)) };
+        }
         // containment needs nested operands to be frequent: often derive B from A's own vertices
         let b = if rng.chance(1, 4) {
             use geo::algorithm::coords_iter::CoordsIter;
